@@ -391,3 +391,7 @@ package kmipserver
 //@   ensures listenerCloses == old(listenerCloses)+1 && wgWaits == old(wgWaits)+1
 //@   ensures cancelsAtWait == old(cancelCalls)+1 && cancelCalls == old(cancelCalls)+2
 //@   ghostmod listenerCloses, cancelCalls, wgWaits, cancelsAtWait
+
+// the write loop runs in a goroutine of its own: a panic that escapes it ends the process (C08)
+//@ func (*conn).writeloop
+//@   requires c != nil && c.logger != nil
